@@ -22,22 +22,22 @@ Definition quoted_ok (c : N) : bool :=
   | _ => false
   end.
 
-Fixpoint below (n : nat) : list N :=
-  match n with O => [] | S k => N.of_nat k :: below k end.
+Fixpoint bytes_below (n : nat) : list N :=
+  match n with O => [] | S k => N.of_nat k :: bytes_below k end.
 
-Lemma below_in : forall n c, c < N.of_nat n -> In c (below n).
+Lemma bytes_below_in : forall n c, c < N.of_nat n -> In c (bytes_below n).
 Proof.
-  induction n as [|k IH]; intros c Hc; [lia|]. cbn [below].
+  induction n as [|k IH]; intros c Hc; [lia|]. cbn [bytes_below].
   destruct (N.eq_dec c (N.of_nat k)) as [->|Hne]; [left; reflexivity|right; apply IH; lia].
 Qed.
 
-Lemma quoted_ok_all : forallb quoted_ok (below 256) = true.
+Lemma quoted_ok_all : forallb quoted_ok (bytes_below 256) = true.
 Proof. vm_compute. reflexivity. Qed.
 
 Lemma quoted_ok_byte c : c < 256 -> quoted_ok c = true.
 Proof.
   intros Hc. pose proof quoted_ok_all as H. rewrite forallb_forall in H. apply H.
-  apply (below_in 256). exact Hc.
+  apply (bytes_below_in 256). exact Hc.
 Qed.
 
 Lemma quote_byte_parses c r acc : quoted_ok c = true ->
